@@ -155,6 +155,9 @@ func (s *session) run(q *Query, timeoutMs int) (string, []string) {
 		s.kill()
 		return "unknown", nil
 	}
+	if debugSlow && time.Since(t0) > 1500*time.Millisecond {
+		fmt.Fprintf(os.Stderr, "[%s] SLOW %.1fs result=%v\n%s\n", s.name, time.Since(t0).Seconds(), lines, q.body())
+	}
 	res := "unknown"
 	for _, l := range lines {
 		if strings.Contains(l, "(error") {
@@ -211,6 +214,7 @@ func (s *session) run(q *Query, timeoutMs int) (string, []string) {
 }
 
 var debugSolver = os.Getenv("GOSMT_DEBUG_SOLVER") != ""
+var debugSlow = os.Getenv("GOSMT_DEBUG_SLOW") != ""
 
 func runCVC5(q *Query, timeoutMs int) (string, []string) {
 	t0 := time.Now()
@@ -287,6 +291,7 @@ func runCVC5(q *Query, timeoutMs int) (string, []string) {
 type Query struct {
 	Asserts   []*Term
 	GetValues []*Term
+	Facts     bool // include ground facts about the real library (model-seeking queries only)
 	bodyOnce  sync.Once
 	bodyText  string
 }
@@ -336,6 +341,9 @@ func (q *Query) body() string {
 			names[u.Name] = true
 		}
 		for n := range names {
+			if !q.Facts {
+				break
+			}
 			for _, f := range groundFactsFor(n) {
 				asserts = append(asserts, f)
 				f.collect(vars, ufs, seen)
@@ -374,7 +382,15 @@ func (q *Query) body() string {
 		var us []*Term
 		for u := range ufs {
 			if u.Sort == SStr {
-				us = append(us, u)
+				allConst := true
+				for _, a := range u.Args {
+					if !a.IsConst() {
+						allConst = false
+					}
+				}
+				if !allConst {
+					us = append(us, u)
+				}
 			}
 		}
 		sort.Slice(us, func(i, j int) bool { return us[i].id < us[j].id })
@@ -634,8 +650,12 @@ type Verdict struct {
 
 // decide runs the three-solver portfolio on a final obligation query (negated property).
 func (ss *SolverSet) decide(asserts []*Term, getValues []*Term, timeoutMs int, useCVC bool) Verdict {
+	return ss.decideF(asserts, getValues, timeoutMs, useCVC, false)
+}
+
+func (ss *SolverSet) decideF(asserts []*Term, getValues []*Term, timeoutMs int, useCVC bool, facts bool) Verdict {
 	atomic.AddInt64(&stats.Queries, 1)
-	q := &Query{Asserts: asserts, GetValues: getValues}
+	q := &Query{Asserts: asserts, GetValues: getValues, Facts: facts}
 	v := Verdict{Solvers: map[string]string{}}
 	var r1, r2, r3 string
 	var m1, m2, m3 []string
